@@ -54,9 +54,10 @@ const (
 )
 
 type Prep struct {
-	Kind string `json:"kind"` // d | f
-	Path string `json:"path"`
-	Tag  int    `json:"tag,omitempty"`
+	Kind   string `json:"kind"` // d | f | l
+	Path   string `json:"path"`
+	Tag    int    `json:"tag,omitempty"`
+	Target string `json:"target,omitempty"` // l: link text (a link made by the user, any target)
 }
 
 type Entry struct {
@@ -336,6 +337,8 @@ func modelLine(c Case, cfg string) string {
 	for _, p := range c.Prep {
 		if p.Kind == "d" {
 			fmt.Fprintf(&sb, " d %s", common.Hex(p.Path))
+		} else if p.Kind == "l" {
+			fmt.Fprintf(&sb, " l %s %s", common.Hex(p.Path), common.Hex(p.Target))
 		} else {
 			fmt.Fprintf(&sb, " f %s %d", common.Hex(p.Path), p.Tag)
 		}
@@ -363,7 +366,7 @@ func modelLine(c Case, cfg string) string {
 	return sb.String()
 }
 
-var modelCfg = "111111"
+var modelCfg = "11111"
 
 func runCase(c Case) {
 	id := run.NewID()
@@ -378,6 +381,10 @@ func runCase(c Case) {
 		}
 		if p.Kind == "d" {
 			if err := os.MkdirAll(p.Path, 0o755); err != nil {
+				panic(err)
+			}
+		} else if p.Kind == "l" {
+			if err := os.Symlink(p.Target, p.Path); err != nil {
 				panic(err)
 			}
 		} else {
@@ -653,6 +660,7 @@ func genRandom(r *common.Rand) Case {
 	c := Case{Prep: basePrep(), Preserve: r.Chance(1, 3), Origin: "random"}
 	tag := 0
 	var earlier []string
+	seenTop := map[string]bool{}
 	// pre-populated content of the working directory
 	if r.Chance(1, 2) {
 		k := 1 + r.Intn(4)
@@ -670,6 +678,7 @@ func genRandom(r *common.Rand) Case {
 			if !ok || seen["f:"+rel] || seen["d:"+rel] {
 				continue
 			}
+			seenTop[parts[0]] = true
 			for j := 1; j < len(parts); j++ {
 				d := strings.Join(parts[:j], "/")
 				if !seen["d:"+d] {
@@ -686,6 +695,19 @@ func genRandom(r *common.Rand) Case {
 				c.Prep = append(c.Prep, Prep{Kind: "f", Path: wdDir + "/" + rel, Tag: 500 + tag})
 			}
 			earlier = append(earlier, rel)
+		}
+	}
+	// links made by the user, pointing anywhere
+	if r.Chance(1, 4) {
+		for i := 0; i < 1+r.Intn(2); i++ {
+			nm := pickSeg(r)
+			if seenTop[nm] {
+				continue
+			}
+			seenTop[nm] = true
+			c.Prep = append(c.Prep, Prep{Kind: "l", Path: wdDir + "/" + nm,
+				Target: common.Pick(r, []string{"..", "../x", "/sb/s0/s1/victim", s3Dir, "../victim", ".", "nowhere", cwdDir + "/secret.txt"})})
+			earlier = append(earlier, nm)
 		}
 	}
 	np := 1 + r.Intn(3)
@@ -709,7 +731,7 @@ func genTemplate(r *common.Rand) Case {
 	c := Case{Prep: basePrep(), Preserve: r.Chance(1, 4)}
 	t := common.Pick(r, []string{"t", "a", "k", "t/b"})
 	fin := common.Pick(r, []string{"victim", "a", "x/victim", "k"})
-	switch k := r.Intn(7); k {
+	switch k := r.Intn(10); k {
 	case 0: // raw link target goes through an earlier link and climbs
 		c.Origin = "tpl-raw-target"
 		d := 1 + r.Intn(3)
@@ -754,6 +776,37 @@ func genTemplate(r *common.Rand) Case {
 			{Kind: "B", Title: wdDir + "/" + t + "/b/s/" + ups(2+r.Intn(3)) + fin, Tag: 3}}
 		if r.Bool() {
 			c.Pushes[1] = Push{Kind: "U", Title: c.Pushes[1].Title, Entries: []Entry{{Kind: "d", Name: c.Pushes[1].Title + "/k"}}}
+		}
+	case 6: // named blob on / below a link whose raw target leaves the tree
+		c.Origin = "tpl-blob-through-link"
+		es := []Entry{{Kind: "d", Name: t + "/b/b"},
+			{Kind: "s", Name: t + "/b/b/s", Target: "../.."},
+			{Kind: "s", Name: t + "/l", Target: "b/b/s/" + ups(2+r.Intn(3)) + fin}}
+		c.Pushes = []Push{{Kind: "U", Title: t, Entries: es}, {Kind: "B", Title: t + "/l", Tag: 4}}
+		if r.Bool() {
+			c.Pushes[0].Entries[2].Target = "b/b/s/" + strings.TrimSuffix(ups(2+r.Intn(2)), "/")
+			c.Pushes[1].Title = t + "/l/" + fin
+		}
+	case 7: // directory entry on top of a link, PreservePermissions: chmod through the link
+		c.Origin = "tpl-remode"
+		c.Preserve = true
+		es := []Entry{{Kind: "d", Name: t + "/b/b"},
+			{Kind: "s", Name: t + "/b/b/s", Target: "../.."},
+			{Kind: "s", Name: t + "/l", Target: "b/b/s/" + strings.TrimSuffix(ups(1+r.Intn(3)), "/")},
+			{Kind: "d", Name: t + "/l", Mode: 0o700},
+			{Kind: "r", Name: t + "/l/" + fin, Tag: 5, Mode: 0o600}}
+		c.Pushes = []Push{{Kind: "U", Title: t, Entries: es}}
+	case 8: // links made by the user in the working directory are not followed either
+		c.Origin = "tpl-user-link"
+		c.Prep = append(c.Prep, Prep{Kind: "l", Path: wdDir + "/u", Target: common.Pick(r, []string{"..", "../x", s3Dir, "../victim"})})
+		switch r.Intn(3) {
+		case 0:
+			c.Pushes = []Push{{Kind: "B", Title: "u/" + fin, Tag: 6}}
+		case 1:
+			c.Pushes = []Push{{Kind: "B", Title: "u", Tag: 6}}
+		default:
+			c.Pushes = []Push{{Kind: "U", Title: "u", Entries: []Entry{{Kind: "r", Name: "u/" + fin, Tag: 6}}},
+				{Kind: "U", Title: "v", Entries: []Entry{{Kind: "h", Name: "v/h", Target: "../u/victim"}, {Kind: "r", Name: "v/h", Tag: 7}}}}
 		}
 	default: // write through a final link created by the store (stays inside when the link is sound)
 		c.Origin = "tpl-final-link"
@@ -850,7 +903,7 @@ func main() {
 	run = common.Start("C11")
 	defer run.Finish()
 	run.Rule = "exhaustive: every 2-entry archive over 3 names x {reg,dir,symlink,hardlink} x 6 targets (thorough: + follow-up blobs, + all 3-entry archives over a sub-alphabet); random: cases = pre-populated tree + 1..3 pushes (named blob or tar+gzip to unpack, 1..6 entries over reg/dir/symlink/hardlink/other); names, titles and link targets from a grammar of segments, '..', '.', empty segments, absolute forms, earlier entry names and cwd decoys, plus perturbed attack templates; distinct = distinct case line; non-trivial = at least one push accepted"
-	if v := os.Getenv("C11_CFG"); len(v) == 6 {
+	if v := os.Getenv("C11_CFG"); len(v) == 5 {
 		modelCfg = v
 	}
 	var replayData []byte
